@@ -6,7 +6,7 @@
 From Coq Require Extraction.
 From Coq Require Import ExtrOcamlBasic.
 From LC.Cont Require SetImpl Heap.
-From LC.CP Require Lexer LexSpec.
+From LC.CP Require Lexer LexSpec LexEquiv.
 From LC.Base Require Utf8.
 From LC.V2 Require Tok TokTables.
 
@@ -15,5 +15,5 @@ Extraction Blacklist List String Int.
 Separate Extraction
   SetImpl.run SetImpl.step
   Heap.run Heap.empty Heap.lookup Heap.arr Heap.idx
-  Lexer.parse Lexer.original Lexer.repaired Lexer.chunks LexSpec.spec_parse LexSpec.lang_wf
+  Lexer.parse Lexer.original Lexer.repaired Lexer.chunks LexSpec.spec_parse LexEquiv.lang_wf'
   Tok.tokenize_whole Tok.tokenize_runes TokTables.mk_tables Utf8.decode_all Utf8.encode_all.
